@@ -173,6 +173,11 @@ func (t *Input) reflectSetKey(rv reflect.Value, key string, v interface{}) (err 
 }
 
 func (t *Input) reflectSet(rv reflect.Value, v interface{}) (err error) {
+	if v == nil {
+		// A null, as a field value or as a member of a list, leaves the
+		// zero value of the Go type.
+		return
+	}
 	if rv.CanSet() {
 		vv := reflect.ValueOf(v)
 		vt := vv.Type()
